@@ -49,6 +49,18 @@ pub fn money_regex_parser(config: &SmartCalcConfig, tokinizer: &mut Tokinizer, g
                 continue;
             }
 
+            /* The match can also start in the middle of a radix literal: '1aed' of '0x1aed' is not 1 AED */
+            let price = capture.name("PRICE").unwrap();
+            let digits_start = price.start() + price.as_str().len() - price.as_str().trim_start_matches(|ch| ch == '+' || ch == '-').len();
+            let word_start = match tokinizer.data[..digits_start].char_indices().rev().find(|(_, ch)| !ch.is_alphanumeric()) {
+                Some((index, ch)) => index + ch.len_utf8(),
+                None => 0
+            };
+
+            if word_start < digits_start && is_radix_literal(&tokinizer.data[word_start..]) {
+                continue;
+            }
+
             /* Check price value */
             let price = match capture.name("PRICE").unwrap().as_str().replace(&config.thousand_separator[..], "").replace(&config.decimal_seperator[..], ".").parse::<f64>() {
                 Ok(price) => match capture.name("NOTATION") {
